@@ -544,7 +544,7 @@ fn run_pop(e: &GraphEngine, op: POp, tid: usize) -> Result<(), String> {
 
 pub fn c35(tier: Tier) -> i32 {
     let rep = Report::new("C35", tier);
-    rep.rule("every unordered pair (quick) / pair and selected triples (thorough) of the public operations {reader: snapshot + full dump + counts + index lookup; writer commit touching an indexed property and creating a label; compact; checkpoint_on_close; create_index; transaction with set_vector; search_vector} runs on separate threads of one engine; ALL schedules with at most the stated number of preemptions, scheduling points at every lock acquisition (threads are disabled while their lock is held by another thread); oracle: no schedule reaches 'unfinished threads, none enabled', no thread panics, and the lock-order graph accumulated over all executions is acyclic; non-trivial = schedules with a preemption");
+    rep.rule("every unordered pair (quick) / pair and selected triples (thorough) of the public operations {reader: snapshot + full dump + counts + index lookup; writer commit touching an indexed property and creating a label; compact; checkpoint_on_close; create_index; transaction with set_vector; search_vector} runs on separate threads of one engine; ALL schedules with at most 2 preemptions for every combination (always completed); the thorough tier then repeats every combination with at most 3 preemptions under a global wall budget and records per bound how many combinations it finished (iterative context bounding); scheduling points at every lock acquisition (threads are disabled while their lock is held by another thread); oracle: no schedule reaches 'unfinished threads, none enabled', no thread panics, and the lock-order graph accumulated over all executions is acyclic; non-trivial = schedules with a preemption");
     let ops = [POp::Reader, POp::Writer, POp::Compact, POp::CloseCheckpoint, POp::CreateIndex, POp::VectorTx, POp::VectorSearch];
     let mut combos: Vec<Vec<POp>> = Vec::new();
     for (i, a) in ops.iter().enumerate() {
@@ -557,13 +557,19 @@ pub fn c35(tier: Tier) -> i32 {
             combos.push(t.to_vec());
         }
     }
-    let bound = tier.pick(2, 3);
-    rep.set("preemption_bound", json!(bound));
+    // iterative context bounding: bound 2 is always completed for every combination; the thorough tier then
+    // repeats every combination at bound 3 under a global wall budget and says which combinations it finished
+    let t0 = std::time::Instant::now();
+    let wall_budget = std::time::Duration::from_secs(std::env::var("VERIF_C35_WALL_S").ok().and_then(|v| v.parse().ok()).unwrap_or(1500));
+    let passes: Vec<(usize, Option<std::time::Instant>)> = if tier == Tier::Thorough { vec![(2, None), (3, Some(t0 + wall_budget))] } else { vec![(2, None)] };
+    rep.set("preemption_bound", json!(passes.last().unwrap().0));
     let all_edges: Mutex<BTreeSet<(&'static str, &'static str)>> = Mutex::new(BTreeSet::new());
     let mut reports = Vec::new();
     let cap_each = tier.pick(6_000u64, 400_000);
+    let mut completed_at: BTreeMap<usize, usize> = BTreeMap::new();
+    for (bound, deadline) in passes.iter().copied() {
     for combo in &combos {
-        let stats = sched::explore(bound, false, cap_each, || {
+        let stats = sched::explore_until(bound, false, cap_each, deadline, || {
             let dir = scratch_dir("c35");
             setup_engine(&dir, true);
             let engine = Arc::new(open_engine(&dir));
@@ -619,14 +625,22 @@ pub fn c35(tier: Tier) -> i32 {
             };
             (bodies, check)
         });
-        reports.push(json!({"ops": combo.iter().map(|o| format!("{o:?}")).collect::<Vec<_>>(), "schedules": stats.schedules, "max_points": stats.max_points, "capped": stats.capped}));
-        if stats.capped {
-            rep.not_exhaustive("schedule cap reached for one combination");
+        reports.push(json!({"ops": combo.iter().map(|o| format!("{o:?}")).collect::<Vec<_>>(), "preemption_bound": bound, "schedules": stats.schedules, "max_points": stats.max_points, "capped": stats.capped}));
+        if !stats.capped {
+            *completed_at.entry(bound).or_insert(0) += 1;
         }
         if stats.diverged > 0 {
             eprintln!("MACHINERY: {} schedules diverged", stats.diverged);
             rep.finish();
             return 2;
+        }
+    }
+    }
+    rep.set("combinations_completed_per_bound", json!(completed_at.iter().map(|(b, n)| json!({"preemption_bound": b, "completed": n, "of": combos.len()})).collect::<Vec<_>>()));
+    for (bound, _) in &passes {
+        let done = completed_at.get(bound).copied().unwrap_or(0);
+        if done < combos.len() {
+            rep.not_exhaustive(&format!("preemption bound {bound}: {done}/{} combinations fully explored before the schedule cap ({cap_each} per combination) or the wall budget ({} s) was reached; every lower bound listed as complete was fully covered", combos.len(), wall_budget.as_secs()));
         }
     }
     let edges = all_edges.lock().unwrap().clone();
